@@ -30,3 +30,5 @@ for d in sorted(glob.glob(os.path.join(HERE, 'seeded', 'C*'))):
     finally:
         subprocess.run(['git', '-C', '/repo', 'checkout', '--', '.'])
 json.dump(out, open(respath, 'w'), indent=1)
+# evidence files were rewritten by runs on mutated trees: restore the committed ones (they must come from the clean tree)
+subprocess.run(['git', '-C', HERE, 'checkout', '--', 'evidence'])
